@@ -86,7 +86,7 @@ func RepoRoot() string {
 type knownFile struct {
 	Findings []struct {
 		Property string `json:"property"`
-		Key      string `json:"key"`   // exact key, or prefix when it ends in '*'
+		Key      string `json:"key"` // exact key, or prefix when it ends in '*'
 		What     string `json:"what"`
 	} `json:"findings"`
 	Fixed []string `json:"fixed"`
